@@ -66,6 +66,7 @@ type SpecFn struct {
 	Src     string
 	Rec     bool
 	Uninter bool
+	Pkg     string
 	Ensures []*Clause // facts instantiated at every ground application (uninterpreted spec functions)
 	Reads   []string
 	File    string
@@ -175,6 +176,7 @@ func (sp *Specs) loadFile(path string) error {
 				return fail("%v", err)
 			}
 			sf.File, sf.Line = path, rl.line
+			sf.Pkg = pkg
 			if _, dup := sp.SpecFns[sf.Name]; dup {
 				return fail("duplicate spec function %s", sf.Name)
 			}
@@ -256,7 +258,21 @@ func (sp *Specs) loadFile(path string) error {
 					return fail("allocs <= K expected")
 				}
 				cur.Allocs = n
-			case "requires", "ensures", "assigns", "fresh", "hint", "onappend":
+			case "hint":
+				// "hint when <var>: E" -- proved, then assumed, right after <var> is bound
+				f := strings.Fields(rest)
+				if len(f) < 3 || f[0] != "when" {
+					return fail("hint when <var>: E")
+				}
+				v := strings.TrimSuffix(f[1], ":")
+				src := strings.TrimSpace(rest[strings.Index(rest, f[1])+len(f[1]):])
+				hc, err := parseClause("hint", src, path, rl.line)
+				if err != nil {
+					return fail("%v", err)
+				}
+				hc.Label = v
+				cur.Hints = append(cur.Hints, hc)
+			case "requires", "ensures", "assigns", "fresh", "onappend":
 				cl, err := parseClause(kw, rest, path, rl.line)
 				if err != nil {
 					return fail("%v", err)
@@ -268,8 +284,6 @@ func (sp *Specs) loadFile(path string) error {
 					cur.Ensures = append(cur.Ensures, cl)
 				case "assigns":
 					cur.Assigns = append(cur.Assigns, cl)
-				case "hint":
-					cur.Hints = append(cur.Hints, cl)
 				case "onappend":
 					cur.OnAppend = append(cur.OnAppend, cl)
 				}
